@@ -398,6 +398,9 @@ class UnkInt(object):
     rcmp_ = cmp_
 
 
+ndarr.MASKED_SIZE_HOOK = lambda sel: UnkInt(tags_of(sel.mask))
+
+
 class UnkIndexSet(object):
     """np.flatnonzero(mask) for an undetermined mask over `n` positions."""
 
@@ -440,6 +443,11 @@ def make_hooks(real_only_sinks=None):
 
     def percentile(nan_aware):
         def f(models, a, q, axis=None, **kw):
+            if isinstance(a, ndarr.MaskedSel):
+                # a[mask] flattens: the selected values of *all* columns are pooled into one sample
+                pooled = join_values(a.arr.items(), tags_of(a.mask))
+                qs = models.np_asarray(q)
+                return pooled if qs.ndim == 0 else Arr((qs.shape[0],), [pooled for _ in range(qs.shape[0])])
             a = models.np_asarray(a)
             if not has_dv(a):
                 return NotImplemented
